@@ -234,7 +234,7 @@ def exec (S : Schema) (ts : List String) : Option (Schema × String) :=
     pure (S, match Spec.specUnmarshal S id b v with | some m => "ok " ++ showVal m | none => "none")
   | "zeromsg" :: rest => do
     let (id, _) ← nat rest
-    pure (S, showVal (Gen2.zeroMsg S (S.length + 1) id))
+    pure (S, showVal (Gen2.zeroMsg S id))
   | "supported" :: _ => pure (S, b2s S.supported)
   | ["varint", n] => do pure (S, hexOf (varint (← n.toNat?)))
   | ["cvarint", h] => do let r := consumeVarint (← unhex h); pure (S, s!"{r.1} {r.2}")
